@@ -146,7 +146,7 @@ func aolRules(p *Prog, r *Report, clause string, want func(tag string) bool) *ao
 				}
 				for _, c := range callers {
 					isHandler := m.msgOf[c] != nil
-					isGenesis := c == initGen
+					isGenesis := c == initGen || isGenesisUnit(p, initGen, c)
 					isTestSupport := InPkgs(c, "types/testsuite")
 					key := kp("WMC", FuncName(a.Fn)+"<-"+FuncName(c))
 					// a transparent helper of a handler (an extracted tail of the handler): covered by the handler's own analysis, which
@@ -170,7 +170,7 @@ func aolRules(p *Prog, r *Report, clause string, want func(tag string) bool) *ao
 							}
 							for _, cc := range hc {
 								switch {
-								case m.msgOf[cc] != nil || cc == initGen:
+								case m.msgOf[cc] != nil || cc == initGen || isGenesisUnit(p, initGen, cc):
 								case p.transparent(cc) && !seenH[cc]:
 									seenH[cc] = true
 									work = append(work, cc)
@@ -203,26 +203,39 @@ func aolRules(p *Prog, r *Report, clause string, want func(tag string) bool) *ao
 
 	// ---- genesis import stores entries untransformed ---------------------------------------------
 	if want("genesis") && initGen != nil {
-		o := NewOrigin(p, initGen)
 		n := 0
-		for _, ac := range m.accessorCalls(initGen, o) {
-			if ac.acc.Op != "Set" {
-				if ac.acc.Op == "Delete" {
-					r.Fail(kp("ORIGIN", "x/aol.InitGenesis→"+FuncName(ac.acc.Fn)), "genesis import only stores entries", p.Pos(ac.cs.Instr.Pos()), "import deletes entries")
+		for _, u := range genesisUnits(p, initGen) {
+			for _, ac := range m.accessorCalls(u.fn, u.o) {
+				if ac.acc.Op != "Set" {
+					if ac.acc.Op == "Delete" {
+						r.Fail(kp("ORIGIN", "x/aol.InitGenesis→"+FuncName(ac.acc.Fn)), "genesis import only stores entries", p.Pos(ac.cs.Instr.Pos()), "import deletes entries")
+					}
+					continue
 				}
-				continue
+				n++
+				site := p.Pos(ac.cs.Instr.Pos())
+				fam := ac.acc.Family
+				okVal := ac.val != nil && ac.val.Op == "deref" && ac.val.Contains(func(x *Term) bool { return x.Op == "next" })
+				okKey := ac.key != nil && ac.key.Op == "outparam" && strings.Contains(ac.key.Name, "DecodeFromString")
+				if _, K, isWalk := sortedKeyWalk(ac.val); isWalk {
+					// the walk over a sorted list of all the map's keys: the entry stored is the one under the key that is decoded
+					okVal = true
+					decodesK := false
+					for _, cs := range callSites(u.fn) {
+						if cs.Callee != nil && pkgPathOf(cs.Callee) == Rel(compkeyPkg) && strings.Contains(cs.Callee.Name(), "DecodeFromString") && okKey &&
+							strings.HasSuffix(ac.key.Site, p.Pos(cs.Instr.Pos())) && len(cs.Instr.Common().Args) > 0 && u.o.Of(cs.Instr.Common().Args[0]).Eq(K) {
+							decodesK = true
+						}
+					}
+					okKey = okKey && decodesK
+				}
+				r.Check(okVal, kp("ORIGIN", "x/aol.InitGenesis#"+fam+"-stored-unchanged"),
+					"genesis import stores each exported entry exactly as it is in the genesis map (no field is recomputed or rewritten on the way in)", site,
+					"value ≡ *mapValue of the iteration", fmt.Sprintf("the %s written at import is %v — not the untouched genesis entry (counters/content recomputed at import diverge from what was exported)", fam, ac.val))
+				r.Check(okKey, kp("ORIGIN", "x/aol.InitGenesis#"+fam+"-key-decoded"), "the key written at import is the one decoded from the genesis map key", site, "key ≡ DecodeFromString(mapKey)", fmt.Sprint(ac.key))
+				checkUnconditionalLoopEffect(p, r, kp("LOOP", "x/aol.InitGenesis#every-"+fam+"-imported"), u.fn,
+					func(in ssa.Instruction) bool { return in == ssa.Instruction(ac.cs.Instr.(*ssa.Call)) }, "import stores every genesis entry, with no conditional skip")
 			}
-			n++
-			site := p.Pos(ac.cs.Instr.Pos())
-			fam := ac.acc.Family
-			okVal := ac.val != nil && ac.val.Op == "deref" && ac.val.Contains(func(x *Term) bool { return x.Op == "next" })
-			r.Check(okVal, kp("ORIGIN", "x/aol.InitGenesis#"+fam+"-stored-unchanged"),
-				"genesis import stores each exported entry exactly as it is in the genesis map (no field is recomputed or rewritten on the way in)", site,
-				"value ≡ *mapValue of the iteration", fmt.Sprintf("the %s written at import is %v — not the untouched genesis entry (counters/content recomputed at import diverge from what was exported)", fam, ac.val))
-			okKey := ac.key != nil && ac.key.Op == "outparam" && strings.Contains(ac.key.Name, "DecodeFromString")
-			r.Check(okKey, kp("ORIGIN", "x/aol.InitGenesis#"+fam+"-key-decoded"), "the key written at import is the one decoded from the genesis map key", site, "key ≡ DecodeFromString(mapKey)", fmt.Sprint(ac.key))
-			checkUnconditionalLoopEffect(p, r, kp("LOOP", "x/aol.InitGenesis#every-"+fam+"-imported"), initGen,
-				func(in ssa.Instruction) bool { return in == ssa.Instruction(ac.cs.Instr.(*ssa.Call)) }, "import stores every genesis entry, with no conditional skip")
 		}
 		r.Floor("aol-genesis-import-writes", n, 4)
 	}
